@@ -191,6 +191,7 @@ def run_case(case, ctx):
         ltot = sum(r[1] for r in ref)
         distinct_fn = all(float(numpy.max(numpy.abs(ref[i][0] - ref[j][0]))) > 1e-3 * scale for i in range(n) for j in range(i + 1, n))
         types = sorted(c["ftype"] for c in comps) + (["Value-defined"] if vd_index is not None else [])
+        nsum = case.get("Nt", 0)
         for perm in itertools.permutations(range(n)):
             if vd_index is not None and perm[-1] != vd_index:
                 continue
@@ -199,8 +200,19 @@ def run_case(case, ctx):
                     continue
                 det = {"fkind": fk, "expr": tree_str(tree), "types": [(comps[i]["ftype"] if i < k else "Value-defined") for i in perm],
                        "units": [(comps[i]["unit"] if i < k else "1/cm") for i in perm]}
+                # the additions themselves are made outside any units context or inside one (as the package's own tests do with +=)
+                nsum += 1
+                uctx = [None, "1/cm", None, "eV", "THz", None, "meV"][nsum % 7]
+                det["added_inside_units_context"] = uctx
                 with ctx.lib("addition " + fk, mechanism=None):
-                    res = evaluate(tree, objs)
+                    if uctx is None:
+                        res = evaluate(tree, objs)
+                    else:
+                        with qr.energy_units(uctx):
+                            res = evaluate(tree, objs)
+                            lam_in = res.get_reorganization_energy()
+                        ctx.check("sum-lamb", abs(lam_in - ltot / CM2INT * UFAC[uctx]), 1e-7 * abs(ltot / CM2INT * UFAC[uctx]),
+                                  dict(det, what="get_reorganization_energy of a sum formed and read inside a units context"))
                 rd = numpy.asarray(res.data)
                 ok = rd.shape == total.shape
                 ctx.require("sum-data", ok, dict(det, what="shape"))
